@@ -7,7 +7,7 @@ import os
 import shutil
 import subprocess
 
-from common import hx, unhx, scratch_dir
+from common import ImplementationHang, hx, unhx, scratch_dir
 
 REQUIRED = [
     "Swh.C01.update_chunks",
@@ -244,9 +244,13 @@ def check_cases(ctx, cases):
 
         def route(tag, fn):
             try:
-                obs[tag] = ("ok", fn())
+                with ctx.time_limit(30):
+                    obs[tag] = ("ok", fn())
             except ValueError:
                 obs[tag] = ("err", "valueError")
+            except ImplementationHang as e:
+                obs[tag] = ("err", "hang")
+                ctx.fail(case, f"route {tag} does not return ({e})", "route-does-not-terminate:" + tag)
 
         route("from_data", lambda: mh_obs(hashutil.MultiHash.from_data(data, hash_names=set(names))))
 
